@@ -81,6 +81,37 @@ func augmentTransitive(p *idl.Program, rng *rand.Rand) {
 	plantSameNameParents(p)
 	plantDiamond(p)
 	plantPrefixes(p)
+	plantKindsAndConstants(p)
+}
+
+// plantKindsAndConstants gives the root one unreferenced definition of each
+// kind (with required / optional / default members) and container constants
+// up to two levels deep whose numbers fit every integer type.
+func plantKindsAndConstants(p *idl.Program) {
+	root := p.Root()
+	at := len(root.Decls)
+	for i, d := range root.Decls {
+		if d.Service != nil || d.Scope != nil {
+			at = i
+			break
+		}
+	}
+	fields := func() []*idl.Field {
+		return []*idl.Field{{ID: 1, Name: "zqCode", Req: idl.ReqRequired, Type: idl.T("i32")}, {ID: 2, Name: "zqNote", Req: idl.ReqOptional, Type: idl.T("string")}, {ID: 3, Name: "zqTags", Type: idl.ListOf(idl.T("string"))}}
+	}
+	decls := []*idl.Decl{
+		{Struct: &idl.Struct{Kind: idl.KindStruct, Name: "ZqKindStruct", Fields: fields()}},
+		{Struct: &idl.Struct{Kind: idl.KindUnion, Name: "ZqKindUnion", Fields: []*idl.Field{{ID: 1, Name: "zqCode", Type: idl.T("i32")}, {ID: 2, Name: "zqNote", Type: idl.T("string")}}}},
+		{Struct: &idl.Struct{Kind: idl.KindException, Name: "ZqKindError", Fields: fields()}},
+		{Const: &idl.Const{Name: "ZQ_LIST", Type: idl.ListOf(idl.T("i32")), Value: []interface{}{int64(1), int64(2), int64(3)}}},
+		{Const: &idl.Const{Name: "ZQ_SET", Type: idl.SetOf(idl.T("i16")), Value: []interface{}{int64(4), int64(5)}}},
+		{Const: &idl.Const{Name: "ZQ_MAP", Type: idl.MapOf(idl.T("string"), idl.T("i32")), Value: []idl.KV{{Key: "a", Value: int64(1)}, {Key: "b", Value: int64(2)}}}},
+		{Const: &idl.Const{Name: "ZQ_BY_NUMBER", Type: idl.MapOf(idl.T("i32"), idl.T("string")), Value: []idl.KV{{Key: int64(1), Value: "one"}}}},
+		{Const: &idl.Const{Name: "ZQ_NESTED", Type: idl.MapOf(idl.T("string"), idl.ListOf(idl.T("i32"))), Value: []idl.KV{{Key: "a", Value: []interface{}{int64(1), int64(2)}}}}},
+	}
+	for k, d := range decls {
+		insertDecl(root, at+k, d)
+	}
 }
 
 // plantPrefixes gives the root scopes whose prefix spells a variable's name
@@ -179,6 +210,8 @@ func transitiveOp(e *edit) bool {
 		return strings.Contains(e.Site, "service Zq")
 	case "drop-include":
 		return true
+	case "change-kind", "change-const-type":
+		return strings.Contains(e.Site, " Zq") || strings.Contains(e.Site, "const ZQ_")
 	case "change-prefix", "rename-prefix-variable":
 		return strings.Contains(e.Site, "scope Zq")
 	}
